@@ -7,6 +7,7 @@ import Req.Lemmas.C02Resp
 import Req.Lemmas.C02H2
 import Req.Lemmas.C02Chunked
 import Req.Lemmas.C02H3
+import Req.Lemmas.C02Hex
 /-!
 C02 — response fidelity: property theorems.
 
@@ -168,6 +169,23 @@ theorem read_split_independent_chunked_no_trailer (cap : Nat) (hcap : 2 ≤ cap)
   obtain ⟨e, he⟩ := h3 hpos hlen
   obtain ⟨rfl, h4, h5, h6⟩ := h2 e he
   exact ⟨h4, he, h5, h6⟩
+
+/-- **read_split_independent, chunked, Go's own encoder.** The origin wrote the non-empty
+chunks `ds` exactly as Go's chunked writer does (`%x` CRLF, data, CRLF … `0` CRLF), then an
+empty trailer section, then `rest`. For every segmentation, every connection end, every
+buffer size ≥ 18 and every sequence of positive read sizes longer than the body: the caller
+gets EXACTLY `ds.flatten`, then `io.EOF`, no trailer, and exactly `rest` is left. -/
+theorem read_split_independent_chunked_canonical (cap : Nat) (hcap : 18 ≤ cap) (ds : List Bytes)
+    (hds : ∀ d ∈ ds, d ≠ [] ∧ d.length < 16 ^ 16) (rest : Bytes)
+    (segs : List Bytes) (hsegs : segs.flatten = canonWire ds (13 :: 10 :: rest)) (fin : NetEnd)
+    (ks : List Nat) (hpos : ∀ k ∈ ks, 0 < k) (hlen : ds.flatten.length < ks.length) :
+    let run := (H1Body.new .chunked (Bufio.new cap ⟨segs, fin⟩)).runReads ks
+    outBytes run.1 = ds.flatten ∧ lastErr run.1 = some .eof ∧ run.2.trailer = none ∧ run.2.br.rem = rest := by
+  have h := read_split_independent_chunked_no_trailer cap (by omega) (ds.map canonChunk)
+    (canon_ok cap hcap ds hds) [48, 13] (lastOK_canonical cap (by omega)) rest segs
+    (by rw [hsegs, canonWire_eq]) fin ks hpos (by rw [dataOf_canon]; exact hlen)
+  rw [dataOf_canon] at h
+  exact h
 
 /-! Non-vacuity: `5\r\nhello\r\n3;x\r\nabc\r\n0\r\n\r\nN` cut into 7 segments, read with 4,4,4. -/
 example :
